@@ -26,7 +26,8 @@ Definition create_value_block (v_len v_align : N) : vblock :=
 (** accessors on a block header *)
 Definition vb_body_offset (b : vblock) : N := vb_hdr_align b.         (* get_body *)
 Definition vb_get_len (b : vblock) : N := vb_hdr_len b.               (* get_len *)
-Definition vb_gc_size (b : vblock) : N := vb_hdr_len b + vb_hdr_align b. (* get_gc_info / delete_value *)
+(* get_gc_info / delete_value: uint32 + uint16 is computed in 32-bit unsigned int *)
+Definition vb_gc_size (b : vblock) : N := (vb_hdr_len b + vb_hdr_align b) mod 2 ^ 32.
 Definition vb_gc_align (b : vblock) : N := vb_hdr_align b.
 
 (** pointer tagging *)
@@ -39,7 +40,7 @@ Definition tag_child_ptr (p : N) : N := N.lor p kChildFlag.
 Definition lv_get_next_layer (w : N) : option N :=
   if N.land w kChildFlag =? 0 then None else Some (N.land w (not64 kChildFlag)).
 Definition lv_get_value (w : N) : option N :=
-  if (0 <? N.land w kChildFlag) || (w =? kValPtrFlag) then None else Some w.
+  if (0 <? N.land w kChildFlag) || (w =? kValPtrFlag) || (w =? 0) then None else Some w.
 Definition lv_init : N := kValPtrFlag.
 
 (** value::get_body / get_len on a slot word holding a value: for an inline
